@@ -5,8 +5,9 @@
 set -e
 S=$1
 export GOTOOLCHAIN=local GOFLAGS=-mod=mod GOPROXY=off GOSUMDB=off PATH=/opt/veriftools/go1.26.8/bin:$PATH
-cd /verif
+V=$(cd "$(dirname "$0")" && pwd)
+cd $V
 mkdir -p $S
 go build -o $S/instr ./instr
-$S/instr -osonly file_system_store.go -add /verif/hooks/zz_verif_hooks.go -out $S/seqinst -overlay $S/seq-overlay.json ${VERIF_REPO:-/repo}=github.com/danthegoodman1/bloomsearch=/repo
+$S/instr -osonly file_system_store.go -add $V/hooks/zz_verif_hooks.go -out $S/seqinst -overlay $S/seq-overlay.json ${VERIF_REPO:-/repo}=github.com/danthegoodman1/bloomsearch=/repo
 go build -overlay $S/seq-overlay.json -tags verif -o $S/hseq ./cmd/hseq
